@@ -415,6 +415,28 @@ func runC07(c *mc.Ctx) {
 		})
 	}
 	c.Sample("b58str", c07Str{Fn: "b58", S: mc.Hex([]byte("1Il"))})
+	// every byte value at every position of longer valid strings (a foreign byte anywhere empties the result)
+	{
+		var fs [][]byte
+		for _, L := range []int{2, 5, 11, 21, 34, 51, 111} {
+			b := make([]byte, L)
+			for i := range b {
+				b[i] = ref.B58Alphabet[(i*17+L)%58]
+			}
+			for pos := 0; pos < L; pos++ {
+				for v := 0; v < 256; v++ {
+					m := append([]byte{}, b...)
+					m[pos] = byte(v)
+					fs = append(fs, m)
+				}
+			}
+		}
+		c.Space("base58 strings of length 2..111 with every byte value at every position", int64(len(fs)))
+		c.ParFor(int64(len(fs)), func(w *mc.W, i int64) {
+			w.State()
+			c07EvalB58Str(w, c07Str{Fn: "b58", S: mc.Hex(fs[i])})
+		})
+	}
 	// low-entropy digit strings: a decoder that works on groups of digits (or an encoder on groups of
 	// bytes) goes wrong on a group that is all zero digits or all maximal digits at a particular
 	// offset, which strings of 3-4 arbitrary letters never contain.  (a) every string over
